@@ -63,6 +63,44 @@ def run(sc):
                 w0.terminate(timeout=1)
             except Exception:
                 pass
+        # "whatever the values are": results that are None / falsy are results like any other - the stream ends at its end marker only
+        wn = make(kind, T.ret, [0], {}, addr)
+        try:
+            vals = [3, None, 0, None, 7]
+            for x in vals:
+                wn.enqueue(x)
+            wn.close()
+            res = {}
+
+            def read_all(res=res):
+                try:
+                    res['got'] = list(wn.results_iter())
+                except BaseException as e:     # noqa
+                    res['exc'] = f'{type(e).__name__}: {e}'
+            th = threading.Thread(target=read_all, daemon=True)
+            th.start()
+            th.join(20)
+            obs['none_results'] = res.get('got', res.get('exc', 'blocked'))
+            if res.get('got') != vals:
+                viol.append(f'enqueue {vals!r}; close(); list(results_iter()) delivered {obs["none_results"]!r}: results that are None (or falsy) must be yielded like any '
+                            f'other and must not end the iteration')
+            wn2 = make(kind, T.ret, [0], {}, addr)
+            try:
+                for x in vals:
+                    wn2.enqueue(x)
+                got2 = list(wn2.results_iter(maxitems=3))
+                if got2 != vals[:3]:
+                    viol.append(f'enqueue {vals!r}; list(results_iter(maxitems=3)) delivered {got2!r} instead of {vals[:3]!r}')
+            finally:
+                try:
+                    wn2.terminate(timeout=1)
+                except Exception:
+                    pass
+        finally:
+            try:
+                wn.terminate(timeout=1)
+            except Exception:
+                pass
         # a worker that died ON ITS OWN (its target raised) was never closed by anybody: enqueue / call on it must still raise WorkerClosedError
         wd = make(kind, T.square_or_die, [0], {}, addr)
         try:
